@@ -144,7 +144,12 @@ VCLAUSE(methods_1d, 60, 12000, 250000, "limits reversed, or an explicit method_p
 	c.cls(m.c_str());
 	VLOG(c, m << " par=" << par << " " << F.desc << " reversed=" << rev);
 	double v = 0, vr = 0, z = 1;
-	VMUST_RETURN("Integrate(" << m << ")", v = libphysica::Integrate(F.f, A, B, m, par); vr = libphysica::Integrate(F.f, B, A, m, par); z = libphysica::Integrate(F.f, A, A, m, par));
+	long ncalls = 0;
+	std::function<double(double)> counted = [&](double x) { ncalls++; return F.f(x); };
+	VMUST_RETURN("Integrate(" << m << ")", v = libphysica::Integrate(counted, A, B, m, par); vr = libphysica::Integrate(F.f, B, A, m, par); z = libphysica::Integrate(F.f, A, A, m, par));
+	// an explicit number of points is the number of evaluations (a method_parameter that is dropped on the way would still meet the accuracy)
+	if(m == "Gauss-Legendre_2")
+		VCHECK(ncalls == (par == 0 ? 30 : par), "Gauss-Legendre_2 with method_parameter " << par << " evaluated the integrand " << ncalls << " times");
 	VCHECK(same_bits(vr, -v) || (v == 0 && vr == 0), m << ": reversing the limits must negate the result exactly: " << v << " vs " << vr);
 	VCHECK(z == 0.0, m << ": equal limits must give zero, got " << z);
 	// accuracy relative to the integral of |f| (never to a cancelling integral)
@@ -212,7 +217,8 @@ VCLAUSE(nested_2d_3d, 60, 3000, 60000, "at least one axis has reversed limits, o
 		rv[k] = s.chance(0.3);
 	}
 	// factors: polynomial (exact for small Gauss rules) or smooth
-	int mi = three ? s.pick({3, 2, 3, 0, 0, 0}) : s.pick({3, 2, 1, 3, 1, 1});
+	// (three dimensions: the trapezoidal rule would need ~1e8 evaluations per case and is left to the 2D cases)
+	int mi = three ? s.pick({3, 2, 3, 2, 0.12, 0}) : s.pick({3, 2, 1, 3, 1, 1});
 	std::string m = kMethods[mi];
 	int par = 0;
 	bool poly = false;
@@ -308,6 +314,9 @@ VCLAUSE(nested_2d_3d, 60, 3000, 60000, "at least one axis has reversed limits, o
 		};
 		VMUST_RETURN("Integrate_2D", v = libphysica::Integrate_2D(f2, L0[0], H0[0], L0[1], H0[1], m, par));
 	}
+	// an explicit method_parameter takes effect at every level of the nesting: Gauss-Legendre_2 with n points evaluates exactly n^d times
+	if(m == "Gauss-Legendre_2")
+		VCHECK(calls == (long) std::pow((double) (par == 0 ? 30 : par), nd), "Gauss-Legendre_2 with method_parameter " << par << " evaluated the integrand " << calls << " times in " << nd << " dimensions, expected " << (par == 0 ? 30 : par) << "^" << nd);
 	VCHECK(bad == 0, bad << " of " << calls << " evaluations passed an argument outside the limits of its own axis: argument " << (int) badv[0] << " received " << badv[1] << " (axis range [" << lo[(int) badv[0]] << "," << hi[(int) badv[0]] << "])");
 	long double exact = 1, mag = 1;
 	for(int k = 0; k < nd; k++)
